@@ -4,7 +4,7 @@ import ast
 import struct
 
 from ..report import rule
-from .. import norm, cfg as cfgmod, guards
+from .. import pm, norm, cfg as cfgmod, guards
 from ..traces import Tracer, fmt
 from ..model import AnalysisError
 from .common import calls_of, find_calls, returns_of, is_abstract_body, bind_args
@@ -91,7 +91,7 @@ def c08_r1(ctx):
             return "capture:" + norm.canon(a.value.value).split(".")[1]
         return None
     def edge_event(func, node, label):
-        if node.kind == "test" and norm.canon(node.ast) == "write_offsets":
+        if node.kind == "test" and "self.allow_offsets" in norm.deep_canon(node.ast, func.node):
             return "wo:" + label[0]
         return None
     tr = Tracer(prog, calls_of(prog), classify, follow=lambda *a: [], stmt_event=stmt_event, edge_event=edge_event, max_depth=0)
@@ -108,14 +108,16 @@ def c08_r1(ctx):
                   "so the padded entries (and the new typecode) are lost: %s" % fmt(bad[0]) if bad else "")
     rd = vr.methods["_read_offsets_and_lengths"]
     ctx.saw(rd)
-    pos = {}
-    for st in ast.walk(rd.node):
-        if isinstance(st, ast.Assign) and isinstance(st.value, ast.Call) and norm.call_name(st.value) == "chr":
-            inner = st.value.args[0]
-            if isinstance(inner, ast.Call) and norm.call_name(inner) == "get_byte":
-                pos.setdefault(norm.canon(st.targets[0]), []).append(norm.canon(inner.args[0]))
-    ctx.ob(rd, pos.get("lens_code") == ["lastbyte", "(lastbyte - 2)"] and pos.get("offsets_code") == ["(lastbyte - 1)"],
-           "reader finds 'X' at the end, the offsets code before it and the lengths code before that", detail=str(pos))
+    RA = pm.Alpha(rd)
+    sts = pm.stmts_of(rd.node)
+    first = RA.find(sts, "lens_code = chr(dbfile.get_byte(lastbyte))")
+    xs = [st for st in sts if isinstance(st, ast.If) and RA.eq(st.test, "lens_code == 'X'")]
+    ok = first is not None and len(xs) == 1 and RA.has(xs[0].body, "lens_code = chr(dbfile.get_byte(lastbyte - 2))") and \
+        RA.has(xs[0].body, "offsets_code = chr(dbfile.get_byte(lastbyte - 1))")
+    ncodes = sum(1 for st in sts if isinstance(st, ast.Assign) and any(norm.call_name(c) == "get_byte" for c in norm.calls_in(st.value)))
+    ctx.ob(rd, ok and ncodes == 3,
+           "reader finds 'X' at the end, the offsets code before it and the lengths code before that",
+           detail="%d get_byte reads" % ncodes)
     # fill pads both arrays together
     fl = vw.methods["fill"]
     fa = guards.Facts(fl)
@@ -221,26 +223,48 @@ def c08_r4(ctx):
     prog = ctx.prog
     f = prog.method("writing.SegmentWriter", "add_document", inherited=False)
     ctx.saw(f)
-    defs = {}
-    for st in ast.walk(f.node):
-        if isinstance(st, ast.Assign) and len(st.targets) == 1 and isinstance(st.targets[0], ast.Name):
-            defs.setdefault(st.targets[0].id, []).append(norm.canon(st.value))
-    ctx.ob(f, defs.get("customval") == ["fields.get(('_stored_%s' % fieldname), value)"], "customval = fields.get('_stored_<name>', value)",
-           detail=str(defs.get("customval")))
-    ctx.ob(f, defs.get("sv") == ["(customval if field.stored else None)"], "stored value = customval iff field.stored", detail=str(defs.get("sv")))
-    ctx.ob(f, defs.get("cv") == ["field.to_column_value(customval)"], "column value = field.to_column_value(customval)", detail=str(defs.get("cv")))
+    A = pm.Alpha(f)
+    CUSTOM = "fields.get('_stored_%s' % fieldname, fields.get(fieldname))"
+    FIELD = "self.schema[fieldname]"
+
+    def deep(e):
+        return norm.inline_defs(e, f.node, depth=8)
+
+    def call_arg(name, idx):
+        cs = [c for c in norm.calls_in(f.node) if norm.call_name(c) == name and len(c.args) > idx]
+        return deep(cs[0].args[idx]) if len(cs) == 1 else None
+    sv = call_arg("add_field", 2)
+    cv = call_arg("add_column_value", 2)
+    has_custom = sv is not None and any(A.eq(x, CUSTOM) for x in ast.walk(sv) if isinstance(x, ast.Call))
+    ctx.ob(f, has_custom, "customval = fields.get('_stored_<name>', value)", detail=norm.canon(sv) if sv is not None else "add_field call not found")
+    ctx.ob(f, sv is not None and A.eq(sv, "(%s if %s.stored else None)" % (CUSTOM, FIELD)), "stored value = customval iff field.stored",
+           detail=norm.canon(sv) if sv is not None else "")
+    ctx.ob(f, cv is not None and A.eq(cv, "%s.to_column_value(%s)" % (FIELD, CUSTOM)), "column value = field.to_column_value(customval)",
+           detail=norm.canon(cv) if cv is not None else "")
     fa = guards.Facts(f)
+
+    def dfact(facts, pol, pattern):
+        for (p_, t) in facts:
+            if p_ != pol:
+                continue
+            try:
+                e = deep(norm.parse_expr(t))
+            except SyntaxError:
+                continue
+            if A.eq(e, pattern):
+                return True
+        return False
     for n_ in fa.g.nodes:
         for frag in cfgmod.node_exprs(n_):
             for c in norm.calls_in(frag):
                 nm = norm.call_name(c)
                 if nm == "add_column_value":
                     facts = fa.at(n_) or frozenset()
-                    ok = (("T", "column") in facts or ("T", "field.column_type") in facts) and (("T", "(None is not customval)") in facts or ("T", "(customval is not None)") in facts)
+                    ok = dfact(facts, "T", FIELD + ".column_type") and dfact(facts, "T", "%s is not None" % CUSTOM)
                     ctx.ob(f, ok, "a column value is written only for fields with a column and a supplied value", loc=ctx.nodeloc(f, c))
                 if nm in ("add_field", "add_column_value", "add_vector_items"):
                     facts = fa.at(n_) or frozenset()
-                    ok = ("F", "(None is value)") in facts or ("T", "(None is not value)") in facts or ("F", "(value is None)") in facts
+                    ok = dfact(facts, "F", "fields.get(fieldname) is None") or dfact(facts, "T", "fields.get(fieldname) is not None")
                     ctx.ob(f, ok, "%s(...) happens only for fields that were supplied (value is not None)" % nm, loc=ctx.nodeloc(f, c))
 
 
@@ -260,8 +284,17 @@ def c08_r5(ctx):
         raise AnalysisError("write_per_doc no longer iterates reader.iter_docs()")
     dvar = norm.canon(loop.target.elts[0]) if isinstance(loop.target, ast.Tuple) else None
     ctx.ob(f, dvar is not None, "iterates (docnum, stored) pairs of the source reader")
+    # the per-field table of column readers: a local dict filled with reader.column_reader(...) results
+    asg = norm.assigned_names(f.node)
+    tables = set(nm for nm, vals in asg.items() if any(v is not None and norm.canon(v) == "{}" for v in vals)
+                 and any(isinstance(st, ast.Assign) and isinstance(st.targets[0], ast.Subscript) and norm.canon(st.targets[0].value) == nm
+                         and any(norm.call_name(c) in ("column_reader", "raw_column") for c in norm.calls_in(norm.inline_defs(st.value, f.node)) )
+                         or (isinstance(st, ast.Assign) and isinstance(st.targets[0], ast.Subscript) and norm.canon(st.targets[0].value) == nm
+                             and isinstance(st.value, ast.Name) and any(v is not None and any(norm.call_name(c) == "column_reader" for c in norm.calls_in(v))
+                                                                     for v in asg.get(st.value.id, [])))
+                         for st in ast.walk(f.node)))
     subs = [n_ for n_ in ast.walk(loop) if isinstance(n_, ast.Subscript) and isinstance(n_.value, ast.Subscript)
-            and norm.canon(n_.value.value) == "cols"]
+            and norm.canon(n_.value.value) in tables]
     ctx.ob(f, len(subs) == 1 and norm.canon(subs[0].slice) == dvar, "the column value is cols[fieldname][<source docnum>]",
            detail="index: %s" % [norm.canon(s_.slice) for s_ in subs])
     for c in norm.calls_in(loop):
@@ -287,12 +320,16 @@ def c08_r6(ctx):
     f = prog.method("reading.MultiReader", "column_reader", inherited=False)
     ctx.saw(f)
     fa = guards.Facts(f)
+    # the lists handed to MultiColumnReader(readers, offsets)
+    mlists = [norm.canon(a) for c in norm.calls_in(f.node) if norm.call_name(c) == "MultiColumnReader" for a in c.args if isinstance(a, ast.Name)]
+    if len(mlists) != 2:
+        raise AnalysisError("MultiReader.column_reader no longer builds MultiColumnReader(<list>, <list>)")
     for n_ in fa.g.nodes:
         for frag in cfgmod.node_exprs(n_):
             for c in norm.calls_in(frag):
-                if norm.call_name(c) == "append" and norm.canon(norm.receiver(c)) in ("crs", "doc_offsets"):
+                if norm.call_name(c) == "append" and norm.canon(norm.receiver(c)) in mlists:
                     facts = [t for (p, t) in (fa.at(n_) or []) if "has_column" in t]
-                    ctx.ob(f, not facts, "%s happens for every sub-reader" % norm.canon(c)[:50],
+                    ctx.ob(f, not facts, "%s happens for every sub-reader" % ("readers.append(...)" if norm.canon(norm.receiver(c)) == mlists[0] else "offsets.append(...)"),
                            detail="only under %s: segments lacking the column file are skipped, so later segments' "
                                   "documents read other documents' values" % facts if facts else "", loc=ctx.nodeloc(f, c))
     sr = prog.method("reading.SegmentReader", "column_reader", inherited=False)
